@@ -722,6 +722,13 @@ impl FilterBodyAction {
     //@|            } } } }),
 }
 
+// ---- PINS: functions of /repo this unit (or the property it serves) only ASSUMES something about — a hand-written shim stands for them, or nothing at
+// all does. The assumption was made for one text of each; the token hash ties it to that text: a change makes the unit UNDECIDED (exit 2), never OK.
+//@@ pin src/filter/html_body_action/mod.rs :: fn evaluate = 0e64c0cde686
+//@@ pin src/filter/html_body_action/mod.rs :: impl HtmlBodyVisitor / fn new = da7d45bbe71e
+//@@ pin src/filter/filter_body.rs :: impl FilterBodyActionItem / fn new = 1cb8947ef2f9
+//@@ pin src/filter/filter_body.rs :: impl FilterBodyActionItem / fn filter = 3d0b7fbcdc45
+//@@ pin src/filter/filter_body.rs :: impl FilterBodyActionItem / fn end = 3c63e1779b71
 //@@ strlits
 } // verus!
 fn main() {}
